@@ -111,13 +111,15 @@ BStatFields(o) ==
     (IF o.hasw THEN {o.whist, o.wmean, o.wvar, o.werri, o.werr2} ELSE {}) \cup
     (IF o.hasw /\ o.hasy THEN {o.wymean, o.wyvar, o.wyerri, o.wyerr2} ELSE {})
 
-\* bin i (1-based) with listed members P
+\* bin i (1-based) with listed members P; every clause name carries the class of the bin
+BBinClass(P) == IF P = {} THEN "empty-bin" ELSE IF Cardinality(P) = 1 THEN "one-member-bin" ELSE "multi-member-bin"
 BBinFailing(c, o, i, P) ==
-    BPlainFailing("", c.x, P, o.mean[i], o.var[i], o.err2[i], o.med[i]) \cup
-    (IF o.hasy THEN BPlainFailing("y", c.y, P, o.ymean[i], o.yvar[i], o.yerr2[i], o.ymed[i]) ELSE {}) \cup
-    (IF o.hasw THEN BWhistFailing(c.w, P, o.whist[i]) \cup
-                    BWtFailing("w", c.x, c.w, P, o.wmean[i], o.wvar[i], o.werri[i], o.werr2[i]) ELSE {}) \cup
-    (IF o.hasw /\ o.hasy THEN BWtFailing("wy", c.y, c.w, P, o.wymean[i], o.wyvar[i], o.wyerri[i], o.wyerr2[i]) ELSE {})
+    {f \o "|" \o BBinClass(P) : f \in
+        BPlainFailing("", c.x, P, o.mean[i], o.var[i], o.err2[i], o.med[i]) \cup
+        (IF o.hasy THEN BPlainFailing("y", c.y, P, o.ymean[i], o.yvar[i], o.yerr2[i], o.ymed[i]) ELSE {}) \cup
+        (IF o.hasw THEN BWhistFailing(c.w, P, o.whist[i]) \cup
+                        BWtFailing("w", c.x, c.w, P, o.wmean[i], o.wvar[i], o.werri[i], o.werr2[i]) ELSE {}) \cup
+        (IF o.hasw /\ o.hasy THEN BWtFailing("wy", c.y, c.w, P, o.wymean[i], o.wyvar[i], o.wyerri[i], o.wyerr2[i]) ELSE {})}
 
 \* requires valid reverse indices (pointers and members) for nb bins
 BStatsFailing(c, o, nb) ==
